@@ -8,7 +8,9 @@ from hypothesis import strategies as st
 from hypothesis.extra import numpy as hnp
 
 from ..gen import cell_st, fl, nice_float
-from ..harness import Facet, Violation
+from hypothesis.stateful import invariant, precondition, rule
+
+from ..harness import Facet, RecordingMachine, Violation
 from ..ref import geom
 from ..util import arr, close, require
 
@@ -46,8 +48,10 @@ def case_st(draw, tie=False):
         f = draw(hnp.arrays(np.float64, (n, d), elements=st.integers(-8, 8).map(lambda k: k / 2.0)))
     else:
         n = draw(st.integers(1, 8))
-        el = st.one_of(st.integers(-64, 64).map(lambda k: k / 16.0), fl(-4.0, 4.0))
-        f = draw(hnp.arrays(np.float64, (n, d), elements=el))
+        # magnitude classes: displacements between particles of one box have |f| <= 1 (the usual callers), plus far images
+        fmax = draw(st.sampled_from([0.55, 0.75, 1.0, 4.0]))
+        el = st.one_of(st.integers(-64, 64).map(lambda k: k / 64.0 * fmax), fl(-fmax, fmax))
+        f = draw(hnp.arrays(np.float64, (n, d), elements=el, fill=st.nothing()))
     ppp = np.array(draw(st.sampled_from(list(itertools.product([0, 1], repeat=d)))), dtype=int)
     if draw(st.integers(0, 3)) > 0:
         ppp = np.ones(d, dtype=int) if draw(st.booleans()) else ppp
@@ -125,6 +129,8 @@ def check(case):
     moved = np.any(nshift[:, ppp == 1] != 0)
     nontrivial = bool(moved and (case["cell"]["kind"] != "ortho" or not ppp.all() or np.abs(nshift).max() >= 2))
     tags = [f"d{d}", case["cell"]["kind"], "mask-partial" if not ppp.all() else "mask-full",
+            "all-|f|<=0.55" if np.abs(f).max() <= 0.55 else ("all-|f|<=1" if np.abs(f).max() <= 1 else "far-images"),
+            "inside-cartesian-half-box" if np.all(np.abs(R) <= 0.5 * np.abs(np.diag(H))) else "outside-cartesian-half-box",
             "tie" if tie.any() else "no-tie", "single" if case["single"] else "batch",
             f"maxshift{int(min(np.abs(nshift).max(), 4))}"]
     return {"nontrivial": nontrivial, "tags": tags}
@@ -135,9 +141,115 @@ def describe(case):
             "ppp": case["ppp"].tolist(), "kind": case["cell"]["kind"]}
 
 
+# ----------------------------------------------------------------------------- histories
+
+
+class CellStream(RecordingMachine):
+    """History facet: one preallocated cell array is updated IN PLACE between calls (frame streaming, NPT / shear
+    runs), interleaved with calls on other array objects.  Every call must be the minimum image for the cell contents
+    at call time, whatever was computed before (no hidden state keyed on array identity / shape)."""
+
+    def __init__(self):
+        super().__init__()
+        self.d = None
+        self.buf = None
+        self.last_update = None  # step index of the last in-place update
+        self.calls_since_update = 0
+
+    def _newcell(self, d, diag, off, kind):
+        H = np.diag(np.array(diag[:d], dtype=float))
+        if kind != "ortho":
+            o = np.array(off, dtype=float).reshape(3, 3)[:d, :d] * H.diagonal().min()
+            if kind == "tri":
+                o = np.tril(o, -1)
+            np.fill_diagonal(o, 0.0)
+            H = H + o
+        return H
+
+    @precondition(lambda self: self.buf is None)
+    @rule(d=st.sampled_from([2, 3]))
+    def r_init(self, d):
+        self.step("init", d=d)
+        self.do_init(d=d)
+
+    def do_init(self, d):
+        self.d = d
+        self.buf = np.diag(np.full(d, 5.0))
+
+    @precondition(lambda self: self.buf is not None)
+    @rule(diag=st.lists(st.integers(4, 80).map(lambda k: k / 4.0), min_size=3, max_size=3),
+          off=st.lists(st.integers(-12, 12).map(lambda k: k / 40.0), min_size=9, max_size=9),
+          kind=st.sampled_from(["ortho", "tri", "general"]), how=st.sampled_from(["assign", "scale"]))
+    def r_update(self, diag, off, kind, how):
+        self.step("update", diag=diag, off=off, kind=kind, how=how)
+        self.do_update(diag=diag, off=off, kind=kind, how=how)
+
+    def do_update(self, diag, off, kind, how):
+        if how == "scale":
+            self.buf *= diag[0] / 8.0  # e.g. an isotropic barostat step
+        else:
+            self.buf[...] = self._newcell(self.d, diag, off, kind)
+        self.calls_since_update = 0
+        self.tag("update-" + how)
+
+    def _check(self, H, fr, ppp, same_object):
+        d = self.d
+        f = np.array(fr, dtype=float).reshape(-1, 3)[:, :d]
+        ppp = np.array(ppp[:d], dtype=int)
+        Hnow = np.array(H, dtype=float, copy=True)
+        R = f @ Hnow
+        out = arr("remove_pbc", remove_pbc(R.copy(), H if same_object else Hnow.copy(), ppp.copy()), shape=R.shape)
+        require(np.array_equal(np.asarray(H), Hnow), "hmatrix modified by remove_pbc")
+        ref, tie = geom.min_image(R, Hnow, ppp)
+        ok = ~tie
+        scale = np.abs(f).max() + 1.0
+        if ok.any():
+            close("remove_pbc vs reference for the current cell contents", out[ok], ref[ok], rtol=1e-9,
+                  atol=1e-9 * np.abs(Hnow).max() * scale)
+        fo = geom.frac_coords(out, Hnow)
+        require(np.all(np.abs(fo[:, ppp == 1]) <= 0.5 + 1e-9 * scale),
+                lambda: f"periodic fractional coordinates outside [-1/2,1/2] for the current cell: {fo.tolist()}")
+
+    @precondition(lambda self: self.buf is not None)
+    @rule(fr=st.lists(st.integers(-96, 96).map(lambda k: k / 64.0), min_size=3, max_size=12).filter(lambda x: len(x) % 3 == 0),
+          ppp=st.lists(st.integers(0, 1), min_size=3, max_size=3))
+    def r_call(self, fr, ppp):
+        self.step("call", fr=fr, ppp=ppp)
+        self.do_call(fr=fr, ppp=ppp)
+
+    def do_call(self, fr, ppp):
+        first_after_update = self.calls_since_update == 0 and any(n == "update" for n, _ in self.log[:-1])
+        earlier_call = any(n == "call" for n, _ in self.log[:-1])
+        self._check(self.buf, fr, ppp, same_object=True)
+        self.calls_since_update += 1
+        if first_after_update and earlier_call:
+            self.info["nontrivial"] = True
+            self.tag("call-right-after-inplace-update")
+        self.tag("call-shared-buffer")
+
+    @precondition(lambda self: self.buf is not None)
+    @rule(fr=st.lists(st.integers(-96, 96).map(lambda k: k / 64.0), min_size=3, max_size=6).filter(lambda x: len(x) % 3 == 0),
+          ppp=st.lists(st.integers(0, 1), min_size=3, max_size=3), diag=st.lists(st.integers(4, 80).map(lambda k: k / 4.0), min_size=3, max_size=3))
+    def r_other(self, fr, ppp, diag):
+        self.step("other", fr=fr, ppp=ppp, diag=diag)
+        self.do_other(fr=fr, ppp=ppp, diag=diag)
+
+    def do_other(self, fr, ppp, diag):
+        self._check(np.diag(np.array(diag[:self.d], dtype=float)), fr, ppp, same_object=False)
+        self.tag("call-other-array")
+
+
+def describe_history(log):
+    return [(n, {k: (v if not isinstance(v, list) or len(v) <= 9 else v[:9]) for k, v in kw.items()}) for n, kw in log[:8]]
+
+
 FACETS = [
     Facet("generic", case_st(False), check, quick=3000, thorough=300000, describe=describe, shards_quick=4,
           rule="random cells/vectors/masks; non-trivial as in RULE"),
     Facet("ties", case_st(True), check, quick=500, thorough=30000, describe=describe,
           rule="dyadic orthogonal boxes with fractional coordinates exactly k/2; non-trivial as in RULE"),
+    Facet("cell_stream", machine=CellStream, quick=300, thorough=20000, steps=10, describe=describe_history,
+          rule="histories of calls sharing one cell array that is updated in place between calls, interleaved with calls "
+               "on other arrays; non-trivial = a call on the shared array right after an in-place update that follows an "
+               "earlier call"),
 ]
